@@ -49,6 +49,7 @@ import (
 	"runtime/pprof"
 	"strconv"
 	"strings"
+	"sync/atomic"
 	"syscall"
 	"time"
 )
@@ -60,6 +61,8 @@ const (
 	reqHeaderLen   = 16
 	respLen        = 1 + 8 + 8 + 8 + 8 + 2*nIModes
 	maxBatchBytes  = 40 << 10
+	flushEvery     = 1024
+	flushAfter     = 300 * time.Millisecond
 	retireAfter    = 128 << 20 // a server that allocated this much in one decode is replaced
 	serverHeadroom = 1 << 30   // address space a decode server may add to what it starts with
 )
@@ -141,6 +144,11 @@ func serverMain() {
 	hdr := make([]byte, reqHeaderLen)
 	resp := make([]byte, respLen)
 	var seq uint64 // index of the answer being worked on
+	pending, lastFlush := 0, time.Now()
+	flush := func() {
+		bw.Flush()
+		pending, lastFlush = 0, time.Now()
+	}
 	// the progress page says which decode is running; answers are flushed in bulk (before the
 	// server waits for more input)
 	begin := func() {
@@ -179,10 +187,15 @@ func serverMain() {
 			os.Exit(0)
 		}
 		bw.Write(resp)
+		// bulk, but never stale: the worker sees progress at least every flushEvery answers
+		// and every flushAfter of wall time (its stall watch looks at the answers)
+		if pending++; pending >= flushEvery || time.Since(lastFlush) > flushAfter {
+			flush()
+		}
 	}
 	for {
 		if br.Buffered() < reqHeaderLen {
-			bw.Flush()
+			flush()
 		}
 		if _, err := io.ReadFull(br, hdr); err != nil {
 			bw.Flush()
@@ -195,7 +208,7 @@ func serverMain() {
 		mask := mode >> 8 & 0xff
 		mode &= 0xff
 		if br.Buffered() < n {
-			bw.Flush()
+			flush()
 		}
 		buf := make([]byte, n)
 		if _, err := io.ReadFull(br, buf); err != nil {
@@ -248,12 +261,12 @@ type server struct {
 	n        uint64 // answers received from this server
 }
 
-var serverSeq int
+var serverSeq int64
 
 func startServer(outDir string) (*server, error) {
-	serverSeq++
-	s := &server{errPath: filepath.Join(outDir, fmt.Sprintf("server-%d.stderr", serverSeq)),
-		progPath: filepath.Join(outDir, fmt.Sprintf("server-%d.progress", serverSeq))}
+	seq := atomic.AddInt64(&serverSeq, 1)
+	s := &server{errPath: filepath.Join(outDir, fmt.Sprintf("server-%d.stderr", seq)),
+		progPath: filepath.Join(outDir, fmt.Sprintf("server-%d.progress", seq))}
 	exe, err := os.Executable()
 	if err != nil {
 		return nil, err
@@ -262,7 +275,9 @@ func startServer(outDir string) (*server, error) {
 		return nil, err
 	}
 	s.cmd = exec.Command(exe)
-	// two Ps: one decoding goroutine plus the collector; keeps start-up and crash dumps small
+	// one P: the decoding goroutine and the collector take turns. (With two Ps every
+	// runtime.ReadMemStats — two per measured decode — woke the second one up: a third of the
+	// server's time went into futex calls.) Keeps start-up and crash dumps small, too
 	s.cmd.Env = append(os.Environ(), "WC04_SERVER=1", "GOMAXPROCS=1", "WC04_PROGRESS="+s.progPath)
 	ef, err := os.Create(s.errPath)
 	if err != nil {
@@ -583,7 +598,9 @@ func runBatch(sp **server, outDir string, reqs []req) ([][]res, error) {
 				if ok && st.decoding && cpu-st.cpuStart > limit+limit/20 {
 					s.kill()
 					if limit >= cpuLimit {
+						ntMu.Lock()
 						ntPaid++
+						ntMu.Unlock()
 						culprit(death{Kind: "nonterminating", Reason: fmt.Sprintf("decode consumed more than %v of CPU without returning", cpuLimit)})
 					} else {
 						culprit(death{Kind: "abandoned", Reason: fmt.Sprintf("decode abandoned after %v of CPU (this process had already paid for %d non-terminating decodes)", limit, ntFullPrice)})
